@@ -235,7 +235,8 @@ def _fold3(e: ast.AST, known: Dict[str, object]):
             if k in known[base]:
                 return "<%s>" % k
             raise q.NotFoldable("missing key %r" % (k,))
-    if isinstance(e, (ast.GeneratorExp, ast.ListComp, ast.SetComp)) and len(e.generators) == 1 and isinstance(e.generators[0].target, ast.Name) and not e.generators[0].is_async:
+    if isinstance(e, (ast.GeneratorExp, ast.ListComp, ast.SetComp)) and len(e.generators) == 1 and not e.generators[0].is_async and (
+            isinstance(e.generators[0].target, ast.Name) or (isinstance(e.generators[0].target, ast.Tuple) and all(isinstance(x, ast.Name) for x in e.generators[0].target.elts))):
         g = e.generators[0]
         seq = _fold3(g.iter, known)
         if not isinstance(seq, (tuple, frozenset, str, bytes, range)):
@@ -243,7 +244,13 @@ def _fold3(e: ast.AST, known: Dict[str, object]):
         out_items = []
         for item in seq:
             k2 = dict(known)
-            k2[g.target.id] = item
+            if isinstance(g.target, ast.Name):
+                k2[g.target.id] = item
+            else:
+                if not isinstance(item, tuple) or len(item) != len(g.target.elts):
+                    raise q.NotFoldable("unpacking in comprehension")
+                for x_, v_ in zip(g.target.elts, item):
+                    k2[x_.id] = v_
             if all(_fold3(c, k2) for c in g.ifs):
                 out_items.append(_fold3(e.elt, k2))
         return tuple(out_items)
@@ -435,8 +442,23 @@ def _call_effects(env: Dict[str, object], root: ast.AST, known_self_methods: Dic
 def default_transfer(n: Node, env: Dict[str, object], known_self_methods: Dict[str, Optional[Callable]], pure_methods: Set[str]):
     if n.ast is None or n.kind not in ("stmt", "test", "for", "with"):
         return
+    grown = None
+    if n.kind == "stmt" and isinstance(n.ast, ast.Expr) and isinstance(n.ast.value, ast.Call) and isinstance(n.ast.value.func, ast.Attribute) \
+            and n.ast.value.func.attr in ("append", "extend") and len(n.ast.value.args) == 1 and not n.ast.value.keywords:
+        # a list whose content is known (modelled as a tuple) grows by a known element / known elements
+        d0 = q.dotted(n.ast.value.func.value)
+        if d0 is not None and isinstance(env.get(d0), tuple):
+            v0 = try_fold(n.ast.value.args[0], env)
+            if v0 is not UNK:
+                if n.ast.value.func.attr == "append":
+                    grown = (d0, env[d0] + (v0,))
+                elif isinstance(v0, (tuple, frozenset)):
+                    grown = (d0, env[d0] + tuple(v0))
     for root in _node_roots(n):
         _call_effects(env, root, known_self_methods, pure_methods)
+    if grown is not None:
+        env[grown[0]] = grown[1]
+        return
     if n.kind == "for":
         for p in q.assigned_paths(ast.Assign(targets=[n.ast.target], value=ast.Constant(value=None))):
             _bind(env, p.rstrip("[]"), UNK)
@@ -469,7 +491,7 @@ def default_transfer(n: Node, env: Dict[str, object], known_self_methods: Dict[s
                 cur = env.get(d, UNK)
                 rhs = try_fold(st.value, env)
                 val = UNK
-                if cur is not UNK and rhs is not UNK and isinstance(cur, (int, str, bytes)) and not isinstance(cur, bool):
+                if cur is not UNK and rhs is not UNK and isinstance(cur, (int, str, bytes, tuple)) and not isinstance(cur, bool):
                     val = try_fold(ast.BinOp(left=ast.Constant(value=cur), op=st.op, right=ast.Constant(value=rhs)), {})
                 _bind(env, d, val)
     elif isinstance(st, ast.Delete):
